@@ -179,7 +179,16 @@ theorem good_readKey (tb : Tables) (d : B) (q : Nat) : GoodIn d q (readKeyR tb) 
       obtain ⟨rfl, hb⟩ := Globals.readU32_ok h32
       rw [h32] at h
       dsimp only at h
-      split at h <;> split at h <;> (cases h; simp only [List.length_take, List.length_drop]; omega)
+      have hle : ((d.drop (p + 4)).take (if n = 0 then 4 else n)).length ≤ d.length - (p + 4) := by
+        simp only [List.length_take, List.length_drop]; omega
+      generalize (if n = 0 then 4 else n) = m at h hle
+      generalize (d.drop (p + 4)).take m = kb at h hle
+      by_cases hc : kb.length ≠ m
+      · rw [if_pos hc] at h; cases h
+      · rw [if_neg hc] at h
+        by_cases hi : n = 0 ∧ ¬ tb.terms kb = true
+        · rw [if_pos hi] at h; cases h; omega
+        · rw [if_neg hi] at h; cases h; omega
   · intro e h
     unfold readKeyR Globals.readKey at h
     cases h32 : Globals.readU32 d p with
@@ -188,7 +197,14 @@ theorem good_readKey (tb : Tables) (d : B) (q : Nat) : GoodIn d q (readKeyR tb) 
       obtain ⟨n, p1⟩ := x
       rw [h32] at h
       dsimp only at h
-      split at h <;> split at h <;> cases h
+      generalize (if n = 0 then 4 else n) = m at h
+      generalize (d.drop p1).take m = kb at h
+      by_cases hc : kb.length ≠ m
+      · rw [if_pos hc] at h; cases h; decide
+      · rw [if_neg hc] at h
+        by_cases hi : n = 0 ∧ ¬ tb.terms kb = true
+        · rw [if_pos hi] at h; cases h
+        · rw [if_neg hi] at h; cases h
 
 theorem Unicode.readU32_bound {d : B} {p n p1 : Nat} (h : Unicode.readU32 d p = .ok (n, p1)) : p1 = p + 4 ∧ p + 4 ≤ d.length := by
   obtain ⟨_, hp1⟩ := Unicode.readU32_spec d p n p1 h
